@@ -382,19 +382,27 @@ FramesA == FramesT /\ Log("Frames", <<>>,
                   rev |-> Rev(inp.s),           \* = complement of the reverse complement
                   mayreject |-> [k \in 1..3 |-> FrameMayReject(inp.s, k - 1)]])
 
+(* The options are truth values.  How the caller REPRESENTS a truth value (Python bool, numpy.bool_, *)
+(* the integers 0 / 1, numpy.int8, numpy.float32) is an argument dimension like ArgReprs: the result  *)
+(* depends on the truth value alone.  Every representation is exercised on the one-codon strings of   *)
+(* the stop-rich family (with and without an extra base), the Python bool on every string.            *)
+FlagReprs == {"bool", "np_bool", "int", "np_int8", "np_float32"}
+WithFlagReprs == inp.kind = "seqB" /\ Len(inp.s) \in {3, 4}
+FlagReprOK(r) == r = "bool" \/ WithFlagReprs
+
 (* seq.get_translation(gc, incomplete_ok, include_stop, trim_stop) and the collection / app forms *)
 GetTranslationT(inc, trim, iok) == IsSeq /\ WithOptions /\ Same
-GetTranslationA(inc, trim, iok) ==
-    GetTranslationT(inc, trim, iok)
-    /\ Log("GetTranslation", <<inc, trim, iok>>,
+GetTranslationA(inc, trim, iok, repr) ==
+    GetTranslationT(inc, trim, iok) /\ FlagReprOK(repr)
+    /\ Log("GetTranslation", <<inc, trim, iok, repr>>,
            [allowed |-> GetTranslationOutcomes(inp.code, inp.s, inc, trim, iok),
             diag    |-> GetTranslationDiag(inp.code, inp.s, inc)])
 
 (* seq.has_terminal_stop(gc, strict), seq.trim_stop_codon(gc, strict) *)
 StopOpsT(strict) == IsSeq /\ WithOptions /\ Same
-StopOpsA(strict) ==
-    StopOpsT(strict)
-    /\ Log("StopOps", <<strict>>, [has  |-> HasStopOutcome(inp.code, inp.s, strict),
+StopOpsA(strict, repr) ==
+    StopOpsT(strict) /\ FlagReprOK(repr)
+    /\ Log("StopOps", <<strict, repr>>, [has  |-> HasStopOutcome(inp.code, inp.s, strict),
                                     trim |-> TrimStopOutcome(inp.code, inp.s, strict)])
 
 (* app.translate.select_translatable(gc, allow_rc, trim_terminal_stop, frame) then translate_seqs; best_frame(gc, allow_rc) *)
@@ -464,8 +472,8 @@ Next == \/ ChooseBucket
         \/ CodonA
         \/ SynonymsA
         \/ FramesA
-        \/ \E inc, trim, iok \in BOOLEAN : GetTranslationA(inc, trim, iok)
-        \/ \E strict \in BOOLEAN : StopOpsA(strict)
+        \/ \E inc, trim, iok \in BOOLEAN, repr \in FlagReprs : GetTranslationA(inc, trim, iok, repr)
+        \/ \E strict \in BOOLEAN, repr \in FlagReprs : StopOpsA(strict, repr)
         \/ \E allow_rc, trim \in BOOLEAN, frame \in 0..3 : (frame = 0 \/ trim) /\ SelectA(allow_rc, frame, trim)
         \/ \E inc, trim \in BOOLEAN : PairA(inc, trim)
         \/ PairStopA
